@@ -174,7 +174,8 @@ def Acc.finish (a : Acc) : Option Parts :=
   | some kty => some { kty := kty, kid := a.kid, alg := a.alg, crv := a.crv, x := a.x, y := a.y, d := a.d, k := a.k, keyOps := a.keyOps }
   | none => none
 
-def sb (s : String) : Bytes := s.toUTF8.toList
+/-- bytes of an ASCII string constant (kernel-reducible, unlike `String.toUTF8`) -/
+def sb (s : String) : Bytes := s.toList.map fun c => UInt8.ofNat c.toNat
 
 /-- `KeyOps::try_from_str` as a bit -/
 def opBit (s : Bytes) : Option Nat :=
